@@ -229,7 +229,8 @@ type vKindSys struct {
 	qs      []vVecQuery
 	idx     VectorIndex
 	m       *vVecModel
-	lvls    int // number of non-zero hnsw levels used so far
+	lvls    int         // number of non-zero hnsw levels used so far
+	qa      [][]float32 // query vectors (offset applied)
 }
 
 func newKindSys(c *vCtx, cfg vVecCfg, nids int) *vKindSys {
@@ -240,6 +241,19 @@ func newKindSys(c *vCtx, cfg vVecCfg, nids int) *vKindSys {
 	s.vals = vVecAlphabet(cfg.Dim)
 	s.vals = s.vals[:len(s.vals)-2]                   // drop the duplicate and the zero vector (covered by C01/C06)
 	s.vals = append(s.vals, vVecAlphabet(cfg.Dim)[0]) // keep one duplicate
+	off := float32(0)
+	if cfg.Train == -3 {
+		// data with a large common offset (spread 1, offset 1000): cancellation in
+		// expanded-norm distance formulas
+		off = 1000
+		for i, v := range s.vals {
+			w := vCopyVec(v)
+			for j := range w {
+				w[j] += off
+			}
+			s.vals[i] = w
+		}
+	}
 	thr := []float32{0, 1.5}
 	if cfg.Metric == Cosine {
 		thr = []float32{0, 0.35}
@@ -258,10 +272,21 @@ func newKindSys(c *vCtx, cfg vVecCfg, nids int) *vKindSys {
 	}
 	qa := vQueryAlphabet(cfg.Dim)
 	qa = qa[:len(qa)-1] // zero query is C01's business
+	if off != 0 {
+		for i, q := range qa {
+			w := vCopyVec(q)
+			for j := range w {
+				w[j] += off
+			}
+			qa[i] = w
+		}
+	}
+	s.qa = qa
 	for _, q := range qa {
 		for _, k := range []int{-1, 1, 2} {
 			for _, t := range thr {
-				for _, r := range [][]uint32{nil, {1}, {2, 9}} {
+				// restrictions: absent ids, and an id named twice (a restriction is a set)
+				for _, r := range [][]uint32{nil, {1}, {2, 9}, {1, 1, 2}} {
 					for _, p := range probes {
 						for _, ef := range efs {
 							s.qs = append(s.qs, vVecQuery{Q: q, K: k, Thr: t, IDs: r, NProb: p, Ef: ef})
